@@ -40,7 +40,9 @@ type Node struct {
 // (their own refinement is established separately), n-ary nodes must have exactly two children.
 func (n *Node) ModelToken() (string, bool) {
 	switch n.Kind {
-	case "mem", "localdisk", "diskpacked":
+	case "localdisk":
+		return "files", true // Pk.Files.filesImpl: directory tree + the pruned recursive walk
+	case "mem", "diskpacked":
 		return "mem", true
 	case "memcache":
 		return fmt.Sprintf("memcache %d", n.Max), true
